@@ -40,17 +40,21 @@ def run_mc(work, prop, tier):
     """exhaustive TLC over the property's families; returns (states, transitions, runs) or raises"""
     runs = []
     for fam, props in RELAY[prop]["mc"]:
-        cfg = relay_cfg.mc_cfg(fam, tier, props)
-        tmo = 900 if tier == "quick" else 3600
-        r = work.tlc("mc-" + fam, "RelayMC", cfg, workers=NCPU, timeout=tmo, deque=True, dump=False)
-        work.log("MC %s: %s distinct / %s generated in %.0fs%s" % (fam, r.get("distinct"), r.get("generated"), r["wall"],
-                                                                   " VIOLATED " + r["violated"] if "violated" in r else ""))
-        if r.get("timeout"):
-            raise Inconclusive("exhaustive model check of family %s timed out" % fam)
-        if "error" in r:
-            raise Inconclusive("TLC error in family %s: %s" % (fam, r["error"]))
-        runs.append(dict(family=fam, props=props, distinct=r.get("distinct", 0), generated=r.get("generated", 0),
-                         wall_s=round(r["wall"], 1), violated=r.get("violated"), log=r["log"]))
+        variants = [None] + (list(range(len(relay_cfg.thorough_variants(fam)))) if tier == "thorough" else [])
+        for v in variants:
+            name = fam if v is None else "%s+%d" % (fam, v)
+            cfg = relay_cfg.mc_cfg(fam, tier, props, variant=v)
+            tmo = 900 if tier == "quick" else 2400
+            r = work.tlc("mc-" + name.replace("+", "-"), "RelayMC", cfg, workers=NCPU, timeout=tmo, deque=True, dump=False)
+            work.log("MC %s: %s distinct / %s generated in %.0fs%s" % (name, r.get("distinct"), r.get("generated"), r["wall"],
+                                                                       " VIOLATED " + r["violated"] if "violated" in r else ""))
+            if r.get("timeout"):
+                raise Inconclusive("exhaustive model check of family %s timed out" % name)
+            if "error" in r:
+                raise Inconclusive("TLC error in family %s: %s" % (name, r["error"]))
+            runs.append(dict(family=name, props=props, distinct=r.get("distinct", 0), generated=r.get("generated", 0),
+                             wall_s=round(r["wall"], 1), violated=r.get("violated"), log=r["log"],
+                             constants=relay_cfg.consts(fam, tier, v)))
     return runs
 
 
